@@ -131,7 +131,7 @@ def doc_skeleton_counts(doc_lines):
 
 
 def run(rep, model, tier, seed, broken=()):
-    n = 200 if tier == "quick" else 6000
+    n = 400 if tier == "quick" else 6000
     rng = core.rng_for(seed, "C07")
     rep.coverage["rule"] = ("nested-AST modules (every entry kind, classes nested to depth 3, empty doc texts) whose doc "
                             "texts are sequences of valid reST blocks (paragraphs, field lists, bullet / enumerated "
